@@ -20,3 +20,26 @@ Definition c16_policy : init_policy :=
 
 Lemma c16_policy_ok : policy_ok c16_policy = true.
 Proof. vm_compute. reflexivity. Qed.
+
+(* ---- code that runs BETWEEN the walker's writes of the flag: filters, Do() handlers, Report callbacks ----
+   Seen from the walk, whatever such code does to the flag happens at the visit of a node: an extra action behind the
+   AVisit of the node's case.  [with_effect a l] is the case body l with the action a inserted there. *)
+Fixpoint with_effect (a : act) (l : list act) : list act :=
+  match l with
+  | [] => []
+  | AVisit t :: r => AVisit t :: a :: r
+  | x :: r => x :: with_effect a r
+  end.
+
+(* the facts, read from package ruleguard on this run, that make such effects impossible:
+   - the only walk over the filter parameters of a run is the one rulesRunner.run starts (no filter or handler owns an
+     astWalker or calls Walk on one; a nested walk that is left through a panic skips the walker's plain restores);
+   - nobody recovers from a panic inside the package (a walk is never left early and then carried on with);
+   - the filter parameters are never overwritten as a whole, and deadcode / currentFunc are written by astWalker.walk only *)
+Definition c16_single_walk : bool :=
+  strs_eqb gen_walker_entry_sites ["runner.go:rulesRunner.run:Walk"; "runner.go:rulesRunner.run:var"] &&
+  match gen_recover_sites with [] => true | _ => false end &&
+  match gen_params_whole_writes with [] => true | _ => false end &&
+  match gen_ctx_writes_outside_walker with [] => true | _ => false end.
+Lemma c16_single_walk_ok : c16_single_walk = true.
+Proof. vm_compute. reflexivity. Qed.
